@@ -280,40 +280,67 @@ def bfs_local(kind, tier):
     for k in KEYS[:2]:
         for vn in VALS:
             ops.append(("set", k, vn))
-        ops += [("get", k), ("cached", k), ("delete", k), ("contains", k), ("ttl", k)]
+        ops += [("get", k), ("cached", k), ("delete", k), ("contains", k), ("ttl", k), ("nested", k), ("writeback", k), ("writeback-copy", k)]
     ops += [("iter",), ("len",)]
     if kind == "json":
         ops += [("reopen",), ("corrupt-reopen",), ("factory-reopen",)]
-    seen = {"{}": 1}
-    frontier = [({}, [])]
+    def mutate(st, r2, op):
+        """The state-changing operations, on the store and on the reference (used to replay a path and to take a step)."""
+        n = op[0]
+        if n == "set":
+            st[op[1]] = copy.deepcopy(VALS[op[2]]); r2[op[1]] = copy.deepcopy(VALS[op[2]])
+        elif n == "delete" and op[1] in r2:
+            del st[op[1]]; del r2[op[1]]
+        elif n == "nested" and op[1] in r2:
+            # an update in place of what the store handed out: visible to later reads of this store object; whether it is
+            # persisted is unspecified until the next write-through
+            st[op[1]]["a"] = 9; r2[op[1]]["a"] = 9
+        elif n == "writeback" and op[1] in r2:
+            st[op[1]] = st[op[1]]                    # the read-modify-write idiom: the same object written back
+        elif n == "writeback-copy" and op[1] in r2:
+            st[op[1]] = dict(st[op[1]])              # ... or an equal copy of it
+        else:
+            return False
+        return True
+    seen = {"{}|False": 1}
+    frontier = [({}, [], False)]
     states = transitions = 0
     findings = {}
     while frontier:
         nxt = []
-        for ref, path_ in frontier:
+        for ref, path_, dirty in frontier:
             states += 1
             for op in ops:
+                # the store is rebuilt by replaying the whole operation path (not from the reference value), so that state the
+                # reference cannot see - the file lagging behind memory after an update in place - is carried along
                 st = fresh()
-                for k, v in ref.items():
-                    st[k] = copy.deepcopy(v)
-                r2 = copy.deepcopy(ref)
+                r2 = {}
+                for o in path_:
+                    mutate(st, r2, tuple(o))
+                assert r2 == ref, (r2, ref)
                 v = None
+                d2 = dirty
                 try:
                     n = op[0]
-                    if n == "set":
-                        st[op[1]] = copy.deepcopy(VALS[op[2]]); r2[op[1]] = copy.deepcopy(VALS[op[2]])
-                        if kind == "json" and json.load(open(path)) != r2:
-                            v = ("not-written-through", "after set the file holds %r" % (json.load(open(path)),))
+                    if n in ("set", "writeback", "writeback-copy", "nested") or (n == "delete" and op[1] in r2):
+                        if not mutate(st, r2, op):
+                            transitions += 1
+                            continue
+                        d2 = (n == "nested") or (dirty and False)
+                        if n == "nested":
+                            d2 = True
+                        elif kind == "json" and json.load(open(path)) != r2:
+                            v = ("not-written-through", "after %s the file holds %r, the store %r" % (n, json.load(open(path)), r2))
+                        if plain(dict(st)) != r2:
+                            v = ("read-differs", "after %s the store holds %r, reference %r" % (n, plain(dict(st)), r2))
+                    elif n == "set":
+                        pass
                     elif n in ("get", "cached"):
                         got = plain(st.get(op[1]) if n == "get" else st.get_cached_view(op[1]))
                         if got != r2.get(op[1]):
                             v = ("read-differs", "%s(%s) -> %r, last written %r" % (n, op[1], got, r2.get(op[1])))
                     elif n == "delete":
-                        if op[1] in r2:
-                            del st[op[1]]; del r2[op[1]]
-                            if kind == "json" and json.load(open(path)) != r2:
-                                v = ("not-written-through", "after delete the file holds %r" % (json.load(open(path)),))
-                        else:
+                        if True:
                             try:
                                 del st[op[1]]
                                 v = ("delete-missing-accepted", "deleting a missing key did not raise KeyError")
@@ -332,11 +359,11 @@ def bfs_local(kind, tier):
                         st.set_ttl(op[1], TTL)
                     elif n == "reopen":
                         st2 = S.JSONStore(path)
-                        if plain(dict(st2)) != r2:
+                        if plain(dict(st2)) != r2 and not dirty:
                             v = ("lost-after-reopen", "after reopening the file the store holds %r, written %r" % (plain(dict(st2)), r2))
                     elif n == "factory-reopen":
                         st2 = S.create_ASL_store(path)
-                        if not isinstance(st2, S.JSONStore) or plain(dict(st2)) != r2:
+                        if not isinstance(st2, S.JSONStore) or (plain(dict(st2)) != r2 and not dirty):
                             v = ("lost-after-reopen", "create_ASL_store(%s) -> %s holding %r" % (path, type(st2).__name__, plain(dict(st2))))
                     elif n == "corrupt-reopen":
                         open(path, "w").write("{not json")
@@ -351,10 +378,10 @@ def bfs_local(kind, tier):
                     if sig not in findings or len(path_) < len(findings[sig][1]):
                         findings[sig] = (v[1], path_ + [list(op)])
                     continue
-                k = json.dumps(r2, sort_keys=True)
+                k = json.dumps(r2, sort_keys=True) + "|" + str(d2)
                 if k not in seen:
                     seen[k] = 1
-                    nxt.append((r2, path_ + [list(op)]))
+                    nxt.append((r2, path_ + [list(op)], d2))
         frontier = nxt
     if os.path.exists(path):
         os.unlink(path)
